@@ -142,6 +142,11 @@ func (p *Plenc) CodecForTypeRegistry(registry plenccodec.CodecRegistry, typ refl
 			}
 			c = plenccodec.WTFixedSliceWrapper{BaseSliceWrapper: bs}
 		case plenccore.WTLength:
+			if isProtoSlice(subc) {
+				// The repeated form has no framing of its own, so the
+				// elements of the inner slices cannot be told apart.
+				return nil, fmt.Errorf("slices of slices of structs or strings are not supported")
+			}
 			if p.ProtoCompatibleArrays || tag == "proto" {
 				// When writing we just want to repeat the encoding of an
 				// individual element within the slice as if it was a separate
@@ -263,4 +268,19 @@ func (p *Plenc) CodecForTypeRegistry(registry plenccodec.CodecRegistry, typ refl
 	}
 
 	return registry.StoreOrSwap(typ, tag, c), nil
+}
+
+// isProtoSlice reports whether c encodes a slice (or a pointer to one) in the
+// protobuf repeated-field form.
+func isProtoSlice(c plenccodec.Codec) bool {
+	for {
+		switch cc := c.(type) {
+		case plenccodec.ProtoSliceWrapper:
+			return true
+		case plenccodec.PointerWrapper:
+			c = cc.Underlying
+		default:
+			return false
+		}
+	}
 }
